@@ -54,6 +54,20 @@ func genLevelText(t *rapid.T) string {
 			}
 			return string(n)
 		}),
+		// a valid name (any case) with something before or after it: never a level name
+		rapid.Custom(func(t *rapid.T) string {
+			n := []byte(rapid.SampledFrom([]string{"debug", "info", "warn", "warning", "error", "dpanic", "panic", "fatal"}).Draw(t, "name"))
+			for i := range n {
+				if rapid.Bool().Draw(t, "upper") {
+					n[i] -= 32
+				}
+			}
+			extra := rapid.SampledFrom([]string{"x", "s", "ing", "X", " ", "\n", "\x00", "0", "level", "warning", "info", ".", "ß", strings.Repeat("z", 40)}).Draw(t, "extra")
+			if rapid.Bool().Draw(t, "suffix") {
+				return string(n) + extra
+			}
+			return extra + string(n)
+		}),
 		rapid.String(),
 		rapid.Map(rapid.SliceOfN(rapid.Byte(), 0, 8), func(b []byte) string { return string(b) }),
 	).Draw(t, "levelText")
@@ -90,8 +104,31 @@ func propC20Text(t *rapid.T) {
 	}
 	if start >= zapcore.DebugLevel && start <= zapcore.FatalLevel {
 		al2 := zap.NewAtomicLevelAt(start)
+		// an AtomicLevel is a handle: copies made earlier (a logger's core, the HTTP handler) share its value
+		cp := al2
+		oc, ologs := observer.New(al2)
+		live := zap.New(oc, zap.WithFatalHook(countHook{new(int64)}), zap.WithPanicHook(countHook{new(int64)}))
 		err = al2.UnmarshalText([]byte(txt))
 		check("AtomicLevel.UnmarshalText", al2.Level(), err, true)
+		if cp.Level() != al2.Level() {
+			t.Fatalf("AtomicLevel.UnmarshalText(%q) detached the level from its earlier copies: copy reports %v, the target %v", txt, cp.Level(), al2.Level())
+		}
+		for lv := zapcore.DebugLevel; lv <= zapcore.FatalLevel; lv++ {
+			if got, want := live.Core().Enabled(lv), lv >= al2.Level(); got != want {
+				t.Fatalf("after AtomicLevel.UnmarshalText(%q) (level now %v) a logger built on the level earlier has Enabled(%v)=%v", txt, al2.Level(), lv, got)
+			}
+		}
+		live.Log(al2.Level(), "at-level")
+		if ologs.Len() != 1 {
+			t.Fatalf("after AtomicLevel.UnmarshalText(%q) an entry at the new level %v was not logged by a logger sharing the level", txt, al2.Level())
+		}
+		// the zero value is documented to be usable with UnmarshalText
+		var zero zap.AtomicLevel
+		if zerr := zero.UnmarshalText([]byte(txt)); (zerr == nil) != ok {
+			t.Fatalf("zero AtomicLevel.UnmarshalText(%q): error=%v, reference says valid=%v", txt, zerr, ok)
+		} else if ok && zero.Level() != want {
+			t.Fatalf("zero AtomicLevel.UnmarshalText(%q) = %v, want %v", txt, zero.Level(), want)
+		}
 	}
 	// flag parsing
 	fs := flag.NewFlagSet("x", flag.ContinueOnError)
